@@ -37,11 +37,13 @@
 (*   UpdateWatchdog : a stalled pin/update is abandoned after some time    *)
 (*   WaitOrigins    : Pin waits for the swarm/connect answers before it    *)
 (*                    goes on (as coded: it does not; they are best-effort)*)
+(*   CallerCtx      : the requests of Pin after the first look-up run under *)
+(*                    the caller's context (as coded: yes)                 *)
 (*   Bound          : at most this many origins get a swarm/connect (10)   *)
 (***************************************************************************)
 EXTENDS Integers, Sequences, FiniteSets, TLC
 
-CONSTANTS CheckTrailer, UpdateWatchdog, WaitOrigins, Bound
+CONSTANTS CheckTrailer, UpdateWatchdog, WaitOrigins, CallerCtx, Bound
 
 PinSt == {"none", "direct", "recursive", "both"}
 Modes == {"recursive", "direct", "depth"}   \* MaxDepth -1, 0, >0
@@ -80,7 +82,7 @@ UpdNew(pt)     == IF pt = "direct" THEN "both" ELSE "recursive"
 
 BehLs  == {"ok", "errBody", "nonJson", "drop", "stall"}
 BehAdd == {"ok", "errBody", "nonJson", "drop", "stall", "commitDrop",
-           "progOk", "progTrailer", "progStall", "flat", "progDrop"}
+           "progOk", "progTrailer", "progStall", "flat", "progDrop", "progForever"}
 BehUpd == {"ok", "errBody", "nonJson", "drop", "stall", "commitDrop"}
 BehRm  == {"ok", "errBody", "nonJson", "drop", "stall", "commitDrop"}
 BehsFor(ep) == CASE ep = "ls" -> BehLs [] ep = "add" -> BehAdd
@@ -96,12 +98,13 @@ VARIABLES
     reqs,     \* requests the daemon received, in order, with what it did
     swarm,    \* origins for which a swarm/connect reached the daemon
     bg,       \* origins whose background swarm/connect has been started, not yet sent
-    result,   \* "" | "ok" | "err" | "hung"
+    result,   \* "" | "ok" | "err" | "hung" (ended by the caller's deadline only) | "never" (not even then)
+    abandoned, \* the caller cancelled and the request in flight was given up
     status,   \* PinLsCid answer ("" for pin/unpin)
     lastProg, \* watchdog: highest progress seen
     age       \* watchdog: ticks since progress last increased
 
-vars == <<inp, script, pins, pc, net, reqs, swarm, bg, result, status, lastProg, age>>
+vars == <<inp, abandoned, script, pins, pc, net, reqs, swarm, bg, result, status, lastProg, age>>
 
 Idle == [st |-> "idle", ep |-> "", cid |-> "", typ |-> "", rec |-> "", from |-> "",
          kind |-> "", msg |-> "", msgs |-> <<>>, end |-> ""]
@@ -111,10 +114,12 @@ Resp(kind, msg, msgs, end) ==
     [net EXCEPT !.st = "resp", !.kind = kind, !.msg = msg, !.msgs = msgs, !.end = end]
 
 Inputs(norigs, intfs) ==
-    {[op |-> "pin", mode |-> m, upd |-> u, norig |-> n, ohang |-> h, prior |-> [c1 |-> p1, c2 |-> p2], intf |-> i] :
-        m \in Modes, u \in BOOLEAN, n \in norigs, h \in BOOLEAN, p1 \in PinSt, p2 \in PinSt, i \in intfs}
+    {[op |-> "pin", mode |-> m, upd |-> u, norig |-> n, ohang |-> h, cancel |-> k,
+      prior |-> [c1 |-> p1, c2 |-> p2], intf |-> i] :
+        m \in Modes, u \in BOOLEAN, n \in norigs, h \in BOOLEAN, k \in BOOLEAN, p1 \in PinSt, p2 \in PinSt, i \in intfs}
     \cup
-    {[op |-> o, mode |-> m, upd |-> FALSE, norig |-> 0, ohang |-> FALSE, prior |-> [c1 |-> p1, c2 |-> "none"], intf |-> i] :
+    {[op |-> o, mode |-> m, upd |-> FALSE, norig |-> 0, ohang |-> FALSE, cancel |-> FALSE,
+      prior |-> [c1 |-> p1, c2 |-> "none"], intf |-> i] :
         o \in {"unpin", "lscid"}, m \in Modes, p1 \in PinSt, i \in intfs}
 
 \* the update source only matters when an update is asked; unpin has no mode;
@@ -125,11 +130,13 @@ Relevant(i) ==
     /\ (i.op = "pin" /\ ~i.upd) => i.prior.c2 = "none"
     /\ i.op = "unpin" => i.mode = "recursive"
     /\ i.op = "lscid" => i.intf = "keep"
+    /\ i.cancel => i.op = "pin"
 
 InitWith(i, sc) ==
     /\ inp = i /\ script = sc
     /\ pins = i.prior
     /\ pc = "start" /\ net = Idle /\ reqs = <<>> /\ swarm = {} /\ bg = {}
+    /\ abandoned = FALSE
     /\ result = "" /\ status = "" /\ lastProg = 0 /\ age = 0
 
 Free == [free |-> TRUE, s |-> <<>>, swarm |-> {}]
@@ -193,6 +200,8 @@ Serve(n, b, pre) ==
                      resp |-> Resp("stream", "", <<0, 1>>, "drop")]
               [] b = "progTrailer" -> [pins |-> pre, eff |-> "fail", ans |-> "", resp |-> Resp("stream", "", <<0, 1, 2>>, "trailer")]
               [] b = "progStall"   -> [pins |-> pre, eff |-> "fail", ans |-> "", resp |-> Resp("stream", "", <<0, 1, 2>>, "stall")]
+              [] b = "progForever" -> \* keeps fetching, never done: only the caller can end this pin
+                    [pins |-> pre, eff |-> "fail", ans |-> "", resp |-> Resp("stream", "", <<0, 1, 2>>, "forever")]
               [] b = "flat"        -> [pins |-> pre, eff |-> "fail", ans |-> "", resp |-> Resp("stream", "", <<0, 2>>, "flat")]
               [] OTHER (* progDrop *) -> [pins |-> pre, eff |-> "fail", ans |-> "", resp |-> Resp("stream", "", <<0, 1>>, "drop")]
 
@@ -208,7 +217,7 @@ Respond ==
               /\ reqs' = Append(reqs, [ep |-> net.ep, cid |-> net.cid, typ |-> net.typ, rec |-> net.rec,
                                        from |-> net.from, unpin |-> IF net.ep = "update" THEN "false" ELSE "",
                                        beh |-> b, eff |-> o.eff, ans |-> o.ans])
-    /\ UNCHANGED <<inp, script, pc, swarm, bg, result, status, lastProg, age>>
+    /\ UNCHANGED <<inp, abandoned, script, pc, swarm, bg, result, status, lastProg, age>>
 
 (***************************************************************************)
 (* CONNECTOR (ipfshttp.go)                                                 *)
@@ -220,15 +229,32 @@ IsPinned(st, mode) == IF mode = "direct" THEN st = "direct" ELSE st = "recursive
 
 Finish(r, st) ==
     /\ result' = r /\ status' = st /\ pc' = "done" /\ net' = Idle /\ bg' = {}
-    /\ UNCHANGED <<inp, script, pins, reqs, swarm, lastProg, age>>
+    /\ UNCHANGED <<inp, abandoned, script, pins, reqs, swarm, lastProg, age>>
 
 Send(n, next) ==
     /\ net' = n /\ pc' = next
-    /\ UNCHANGED <<inp, script, pins, reqs, swarm, bg, result, status, lastProg, age>>
+    /\ UNCHANGED <<inp, abandoned, script, pins, reqs, swarm, bg, result, status, lastProg, age>>
 
 Goto(next) ==
     /\ pc' = next /\ net' = Idle
-    /\ UNCHANGED <<inp, script, pins, reqs, swarm, bg, result, status, lastProg, age>>
+    /\ UNCHANGED <<inp, abandoned, script, pins, reqs, swarm, bg, result, status, lastProg, age>>
+
+\* The conversation is blocked on a daemon that is silent, repeats itself or
+\* never finishes.  inp.cancel: the caller cancels its context shortly after the
+\* call started - honest exchanges are over by then, and none of the
+\* connector's own timers has fired yet - so the cancellation meets the first
+\* blocked request.  It aborts that request if it runs under the caller's context.
+Blocked == net.st = "resp" /\ (net.kind = "stall" \/
+              (net.kind = "stream" /\ net.msgs = <<>> /\ net.end \in {"stall", "flat", "forever"}))
+UnderCaller == CallerCtx \/ pc \in {"wLs1", "wRm"}
+Cancelled == inp.cancel /\ Blocked /\ UnderCaller
+
+\* ctx.Done(): the request in flight is abandoned, the call returns the error
+CallerCancel ==
+    /\ pc \notin {"start", "done"} /\ Cancelled
+    /\ abandoned' = TRUE
+    /\ result' = "err" /\ status' = (IF inp.op = "lscid" THEN "error" ELSE "") /\ pc' = "done" /\ net' = Idle /\ bg' = {}
+    /\ UNCHANGED <<inp, script, pins, reqs, swarm, lastProg, age>>
 
 \* Pin and PinLsCid start with PinLsCid(pin); Unpin goes straight to pin/rm
 Start ==
@@ -242,7 +268,7 @@ LsStatus == CASE net.kind = "keys" -> net.msg
               [] OTHER -> "error"    \* nonjson, drop, stall (request timeout)
 
 RecvLs1 ==
-    /\ pc = "wLs1" /\ net.st = "resp"
+    /\ pc = "wLs1" /\ net.st = "resp" /\ ~Cancelled
     /\ IF LsStatus = "error" THEN Finish("err", IF inp.op = "lscid" THEN "error" ELSE "")
        ELSE IF inp.op = "lscid" THEN Finish("ok", LsStatus)
        ELSE IF IsPinned(LsStatus, inp.mode) THEN Finish("ok", "")   \* already pinned: nothing else is requested
@@ -253,13 +279,13 @@ Spawn ==
     /\ pc = "spawn"
     /\ bg' = 1..Min(inp.norig, Bound)
     /\ pc' = "spawned"
-    /\ UNCHANGED <<inp, script, pins, net, reqs, swarm, result, status, lastProg, age>>
+    /\ UNCHANGED <<inp, abandoned, script, pins, net, reqs, swarm, result, status, lastProg, age>>
 
 BgConnect(o) ==
     /\ o \in bg /\ pc # "done"
     /\ script.free \/ (pc = "spawned" /\ o \in script.swarm /\ \A q \in bg \cap script.swarm : o <= q)
     /\ swarm' = swarm \cup {o} /\ bg' = bg \ {o}
-    /\ UNCHANGED <<inp, script, pins, pc, net, reqs, result, status, lastProg, age>>
+    /\ UNCHANGED <<inp, abandoned, script, pins, pc, net, reqs, result, status, lastProg, age>>
 
 \* As coded the goroutines are left alone.  WaitOrigins: a wg.Wait() here - every
 \* swarm/connect has been sent and answered; a daemon that hangs on them never
@@ -276,42 +302,50 @@ SendLs2 == pc = "ls2" /\ Send(Req("ls", "c2", TypOf(inp.mode), "", ""), "wLs2")
 
 \* pinStatus, _ := PinLsCid(fromPin); update only if pinned recursively
 RecvLs2 ==
-    /\ pc = "wLs2" /\ net.st = "resp"
+    /\ pc = "wLs2" /\ net.st = "resp" /\ ~Cancelled
     /\ Goto(IF LsStatus = "recursive" THEN "update" ELSE "add")
 
 SendUpd == pc = "update" /\ Send(Req("update", "c1", "", "", "c2"), "wUpd")
 
 RecvUpd ==
-    /\ pc = "wUpd" /\ net.st = "resp"
+    /\ pc = "wUpd" /\ net.st = "resp" /\ ~Cancelled
     /\ CASE net.kind = "ok200" -> Finish("ok", "")
-         [] net.kind = "stall" -> Finish(IF UpdateWatchdog THEN "err" ELSE "hung", "")
+         \* no timer of its own: the caller's deadline ends it - if the request runs under it
+         [] net.kind = "stall" -> Finish(IF UpdateWatchdog THEN "err" ELSE IF CallerCtx THEN "hung" ELSE "never", "")
          [] OTHER -> Finish("err", "")
 
 SendAdd ==
     /\ pc = "add"
     /\ net' = Req("add", "c1", "", RecArg(inp.mode), "") /\ pc' = "wAdd"
     /\ lastProg' = 0 /\ age' = 0
-    /\ UNCHANGED <<inp, script, pins, reqs, swarm, bg, result, status>>
+    /\ UNCHANGED <<inp, abandoned, script, pins, reqs, swarm, bg, result, status>>
 
 \* the daemon is silent (or repeats itself): only the watchdog ticker can move
 Silent == net.kind = "stall" \/ (net.kind = "stream" /\ net.msgs = <<>> /\ net.end \in {"stall", "flat"})
 
 \* ticker.C: cancel when the last increase is older than PinTimeout
 Tick ==
-    /\ pc = "wAdd" /\ net.st = "resp" /\ Silent
+    /\ pc = "wAdd" /\ net.st = "resp" /\ Silent /\ ~Cancelled
     /\ IF age >= 1 THEN Finish("err", "")
        ELSE /\ age' = age + 1
-            /\ UNCHANGED <<inp, script, pins, pc, net, reqs, swarm, bg, result, status, lastProg>>
+            /\ UNCHANGED <<inp, abandoned, script, pins, pc, net, reqs, swarm, bg, result, status, lastProg>>
+
+\* progress keeps increasing: the watchdog stays quiet, the pin goes on until the
+\* caller's deadline
+Forever == net.kind = "stream" /\ net.msgs = <<>> /\ net.end = "forever"
+DeadlineEnds ==
+    /\ pc = "wAdd" /\ net.st = "resp" /\ Forever /\ ~Cancelled
+    /\ Finish(IF CallerCtx THEN "hung" ELSE "never", "")
 
 RecvAdd ==
-    /\ pc = "wAdd" /\ net.st = "resp" /\ ~Silent
+    /\ pc = "wAdd" /\ net.st = "resp" /\ ~Silent /\ ~Forever
     /\ CASE net.kind # "stream" -> Finish("err", "")          \* checkResponse / transport error
          [] net.kind = "stream" /\ net.msgs # <<>> ->          \* one progress object decoded
                 /\ net' = [net EXCEPT !.msgs = Tail(net.msgs)]
                 /\ IF Head(net.msgs) > lastProg
                    THEN lastProg' = Head(net.msgs) /\ age' = 0
                    ELSE UNCHANGED <<lastProg, age>>
-                /\ UNCHANGED <<inp, script, pins, pc, reqs, swarm, bg, result, status>>
+                /\ UNCHANGED <<inp, abandoned, script, pins, pc, reqs, swarm, bg, result, status>>
          [] net.kind = "stream" /\ net.msgs = <<>> /\ net.end = "pins" -> Finish("ok", "")
          [] net.kind = "stream" /\ net.msgs = <<>> /\ net.end = "trailer" ->
                 Finish(IF CheckTrailer THEN "err" ELSE "ok", "")  \* clean EOF
@@ -319,20 +353,21 @@ RecvAdd ==
 
 \* Unpin: any error is returned unless it is the daemon's "not pinned" message
 RecvRm ==
-    /\ pc = "wRm" /\ net.st = "resp"
+    /\ pc = "wRm" /\ net.st = "resp" /\ ~Cancelled
     /\ IF net.kind = "ok200" \/ (net.kind = "jsonerr" /\ net.msg = "notpinned")
        THEN Finish("ok", "") ELSE Finish("err", "")
 
 Next ==
     \/ Respond \/ Start \/ RecvLs1 \/ Spawn \/ AfterSpawn \/ SendLs2 \/ RecvLs2
-    \/ SendUpd \/ RecvUpd \/ SendAdd \/ Tick \/ RecvAdd \/ RecvRm
+    \/ SendUpd \/ RecvUpd \/ SendAdd \/ Tick \/ DeadlineEnds \/ RecvAdd \/ RecvRm \/ CallerCancel
     \/ \E o \in bg : BgConnect(o)
 
 (***************************************************************************)
 (* Observation record of a finished call                                   *)
 (***************************************************************************)
 Obs == [in  |-> inp,
-        out |-> [res |-> result, status |-> status, pins |-> pins, reqs |-> reqs, swarm |-> swarm]]
+        out |-> [res |-> result, status |-> status, pins |-> pins, reqs |-> reqs, swarm |-> swarm,
+                 abandoned |-> abandoned]]
 
 (***************************************************************************)
 (* PROPERTY - written from the statement, over an observation R            *)
@@ -383,8 +418,20 @@ StallGivesUp(R) == StallGivesUpOn(R, {"add", "update"})
 \* and never only because the caller's context ended ("hung").  Together with
 \* StallGivesUp: a pin never needs the caller to end it.
 OriginsBestEffort(R) ==
-    (R.in.op = "pin" /\ ~\E j \in ReqIdx(R) : Rq(R, j).ep \in {"add", "update"} /\ Rq(R, j).beh \in Stalls)
+    (R.in.op = "pin" /\ ~\E j \in ReqIdx(R) : Rq(R, j).ep \in {"add", "update"} /\ Rq(R, j).beh \in Stalls \cup {"progForever"})
     => R.out.res # "hung"
+
+\* every call returns: once the caller's context has ended and the daemon stays
+\* silent, a call that still does not return reports nothing at all
+CallReturns(R) == R.out.res # "never"
+
+\* the caller (the pin tracker) cancels operations through the context: the
+\* request that is in flight against a silent or never-finishing daemon is
+\* abandoned and the call returns an error
+CancelPropagates(R) ==
+    (/\ R.in.op = "pin" /\ R.in.cancel /\ Len(R.out.reqs) > 0
+     /\ Rq(R, Len(R.out.reqs)).beh \in Stalls \cup {"progForever"})
+    => (R.out.res = "err" /\ R.out.abandoned)
 
 \* pin/update only from the asked source, only when that is recursively pinned
 UpdateOnlyIfRecursive(R) ==
@@ -400,7 +447,8 @@ SourceKept(R) ==
         /\ R.out.pins.c2 = R.in.prior.c2
 
 PredNames == <<"SuccessSound", "FailureReported", "NoRedundantRequest", "UnpinIdempotent",
-               "StallGivesUp", "OriginsBestEffort", "UpdateOnlyIfRecursive", "SourceKept">>
+               "StallGivesUp", "OriginsBestEffort", "CallReturns", "CancelPropagates",
+               "UpdateOnlyIfRecursive", "SourceKept">>
 Pred(name, R) ==
     CASE name = "SuccessSound" -> SuccessSound(R)
       [] name = "FailureReported" -> FailureReported(R)
@@ -408,6 +456,8 @@ Pred(name, R) ==
       [] name = "UnpinIdempotent" -> UnpinIdempotent(R)
       [] name = "StallGivesUp" -> StallGivesUp(R)
       [] name = "OriginsBestEffort" -> OriginsBestEffort(R)
+      [] name = "CallReturns" -> CallReturns(R)
+      [] name = "CancelPropagates" -> CancelPropagates(R)
       [] name = "UpdateOnlyIfRecursive" -> UpdateOnlyIfRecursive(R)
       [] OTHER -> SourceKept(R)
 Broken(R) == {PredNames[k] : k \in {k \in DOMAIN PredNames : ~Pred(PredNames[k], R)}}
@@ -419,13 +469,15 @@ InvNoRedundant    == Done => NoRedundantRequest(Obs)
 InvUnpinIdempotent == Done => UnpinIdempotent(Obs)
 InvStallGivesUp   == Done => StallGivesUp(Obs)
 InvOriginsBestEffort == Done => OriginsBestEffort(Obs)
+InvCallReturns == Done => CallReturns(Obs)
+InvCancelPropagates == Done => CancelPropagates(Obs)
 InvStallGivesUpAdd == Done => StallGivesUpOn(Obs, {"add"})
 InvUpdateOnlyIfRecursive == Done => UpdateOnlyIfRecursive(Obs)
 InvSourceKept     == Done => SourceKept(Obs)
 
 TypeOK ==
     /\ pins \in [{"c1", "c2"} -> PinSt]
-    /\ result \in {"", "ok", "err", "hung"}
+    /\ result \in {"", "ok", "err", "hung", "never"}
     /\ pc \in {"start", "wLs1", "spawn", "spawned", "ls2", "wLs2", "update", "wUpd", "add", "wAdd", "wRm", "done"}
     /\ (pc = "done") = (result # "")
     /\ swarm \subseteq 1..Min(inp.norig, Bound)
